@@ -7,6 +7,7 @@ Modes == {"ultimatum", "notify", "abrupt", "bad_rdp", "bad_io"}
 \* packings of up to three bitmaps: one per record, several per record, one split across records
 Packings == { << Rec(<<B(1)>>), Rec(<<B(2)>>) >>, << Rec(<<B(1), B(2)>>) >>, << Rec(<<B(1), B(2), B(3)>>) >>,
               << Rec(<< <<"part1", 1>> >>), Rec(<< <<"part2", 1>>, B(2) >>) >>, << Rec(<<B(1)>>), Rec(<<B(2), B(3)>>) >>, <<>>,
-              << Rec(<< <<"bmp3", 1>> >>), Rec(<<B(4)>>) >> }     \* one PDU carrying three rectangles
+              << Rec(<< <<"bmp3", 1>> >>), Rec(<<B(4)>>) >>,       \* one PDU carrying three rectangles
+              << Rec(<< <<"ctl", "sync">>, <<"ctl", "coop">>, B(1), B(2) >>) >> }   \* handshake PDUs and bitmaps in one record
 MCScripts == { p \o <<End(m)>> : p \in Packings, m \in Modes } \cup Packings
 =============================================================================
